@@ -1155,9 +1155,9 @@ func (r *runner) checkViews() {
 					gas[e] = a
 				}
 			}
-			if d := diffMaps(gas, s.Assets); d != "" {
-				r.v("C01", "view-assets", "%s's view of the asset instances: %s", c.Label, d)
-				r.v("C16", "joiner-state-mismatch", "%s's view of the asset instances: %s", c.Label, d)
+			if d, ks := diffMapsK(gas, s.Assets); d != "" {
+				r.vk(ks, "asset:", "C01", "view-assets", "%s's view of the asset instances: %s", c.Label, d)
+				r.vk(ks, "asset:", "C16", "joiner-state-mismatch", "%s's view of the asset instances: %s", c.Label, d)
 			}
 		}
 	}
